@@ -15,7 +15,8 @@ RULE = ('Hypothesis strategy over frame sets: 0-4 topics (normal and _hidden nam
         '(sizes from 1x1, 1xN, Nx1, primes; contiguous, column- or row-strided; writable or read-only; raw, jpg-backed undecoded, '
         'jpg-backed decoded) and JSON data from {} to nested unicode/None/lists/2^70 ints/floats; outputs_jpg in {None, True, False}. '
         'Non-trivial = the set has an image and is in a corner class (dimension 1, strided, read-only, jpg-backed, GRAY through jpg, '
-        'empty data with image). Distinct = distinct case value.')
+        'empty data with image). Distinct = distinct case value.'
+        ' Also: Fortran-ordered images, jpg-backed frames whose JPEG starts with Exif / a comment / no APPn segment, single-component JPEG behind a colour frame.')
 ASSUMPTIONS = ['cv2.imencode/imdecode are deterministic (used as the differential reference for the jpg path)', 'uint8 images <= 300 px per side']
 BUDGET = {'quick': 40, 'thorough': 600}
 
